@@ -58,7 +58,7 @@ def profile(tier, rng):
     return R.Profile(allow=R.HAZARDS, max_depth=8 if tier == "quick" else rng.choice([8, 14]),
                      ops={"extend": 6, "wextend": 2, "owextend": 1, "project": 1, "select_rows": 2, "select_columns": 3,
                           "drop_columns": 3, "rename_columns": 1, "map_columns": 1, "order_rows": 4, "natural_join": 2,
-                          "concat_rows": 1}, self_join_p=0.1, pair_keys_p=0.3)
+                          "concat_rows": 1, "convert_records": 1}, self_join_p=0.1, pair_keys_p=0.3)
 
 
 POOL = ["e0", "e1", "e2"]
